@@ -55,13 +55,25 @@ class Ctx:
 # ---------------------------------------------------------------- build
 
 def build_harness(ctx, race=False):
-    shutil.copy('/repo/go.sum', os.path.join(HARNESS, 'go.sum'))
+    src = HARNESS
+    repo = os.environ.get('VERIF_REPO', '/repo')
+    if repo != '/repo':
+        # mutation testing only (tools/matrix.py): the harness is built in the work directory against a scratch copy of the
+        # library; the registered commands never set VERIF_REPO and build against /repo's working tree
+        src = ctx.path('harness-src')
+        if not os.path.isdir(src):
+            shutil.copytree(HARNESS, src)
+            with open(os.path.join(src, 'go.mod')) as f:
+                gm = f.read().replace('=> /repo', '=> ' + repo)
+            with open(os.path.join(src, 'go.mod'), 'w') as f:
+                f.write(gm)
+    shutil.copy(os.path.join(repo, 'go.sum'), os.path.join(src, 'go.sum'))
     cmd = ['go', 'build', '-tags', 'verif']
     if race:
         cmd.append('-race')
     out = ctx.harness + ('-race' if race else '')
     cmd += ['-o', out, '.']
-    p = subprocess.run(cmd, cwd=HARNESS, env=GOENV, capture_output=True, text=True)
+    p = subprocess.run(cmd, cwd=src, env=GOENV, capture_output=True, text=True)
     if p.returncode != 0:
         raise Machinery('harness build failed (the tree under /repo does not compile with -tags verif?):\n' + p.stdout + p.stderr)
     return out
@@ -227,8 +239,43 @@ def count_lines(path):
     return n
 
 
+JUDGE_PAR = int(os.environ.get('VERIF_JUDGE_PAR', '10'))   # TLC monitors in flight (4 GB heap limit each)
+MAX_PART_EVENTS = 120000
+MAX_PART_BYTES = 48 << 20
+
+
+def split_trace(trace_path):
+    """cut a recorded trace into parts at scenario boundaries (every monitor starts afresh at a `reset` event), so that the JSON
+    one TLC run has to hold stays bounded whatever the tier generates"""
+    if os.path.getsize(trace_path) <= MAX_PART_BYTES and count_lines(trace_path) <= MAX_PART_EVENTS:
+        return [trace_path]
+    parts, out, n, size = [], None, 0, 0
+    with open(trace_path, 'rb') as f:
+        for line in f:
+            if out is None or ((n >= MAX_PART_EVENTS or size >= MAX_PART_BYTES) and b'"ev":"reset"' in line):
+                if out:
+                    out.close()
+                parts.append('%s.part%d' % (trace_path, len(parts)))
+                out, n, size = open(parts[-1], 'wb'), 0, 0
+            out.write(line)
+            n += 1
+            size += len(line)
+    if out:
+        out.close()
+    return parts
+
+
 def judge(ctx, monitor, trace_path, timeout=1800, heap='4g', consts=''):
     """validate one recorded trace file with a monitor; returns the list of violation records"""
+    parts = split_trace(trace_path)
+    if len(parts) > 1:
+        viols, events = [], 0
+        for pp in parts:
+            v, k = judge(ctx, monitor, pp, timeout, heap, consts)
+            viols += v
+            events += k
+            os.remove(pp)
+        return viols, events
     n = count_lines(trace_path)
     if n == 0:
         return [], 0
@@ -274,7 +321,7 @@ def run_and_judge(ctx, family, monitor, scenarios, opt='', shards=None, consts='
 
 def judge_many(ctx, monitor, traces, consts='', keep=False):
     viols, events = [], 0
-    with cf.ThreadPoolExecutor(max_workers=NCPU) as ex:
+    with cf.ThreadPoolExecutor(max_workers=min(NCPU, JUDGE_PAR)) as ex:
         for v, n in ex.map(lambda tp: judge(ctx, monitor, tp, consts=consts), traces):
             viols += v
             events += n
@@ -332,8 +379,11 @@ def write_evidence(ctx, level, coverage, violations, assumptions):
         'property_id': ctx.prop, 'tier': ctx.tier, 'seed': ctx.seed, 'level': level,
         'coverage': coverage, 'assumptions': assumptions, 'wall_s': round(time.time() - ctx.t0, 1), 'violations': violations,
     }
-    os.makedirs(os.path.join(ROOT, 'evidence'), exist_ok=True)
-    with open(os.path.join(ROOT, 'evidence', ctx.prop + '.json'), 'w') as f:
+    edir = os.path.join(ROOT, 'evidence')
+    if os.environ.get('VERIF_REPO', '/repo') != '/repo':
+        edir = '/tmp/verif-mutation-evidence'     # a mutation-testing run never touches the committed evidence
+    os.makedirs(edir, exist_ok=True)
+    with open(os.path.join(edir, ctx.prop + '.json'), 'w') as f:
         json.dump(ev, f, indent=1)
 
 
